@@ -14,6 +14,9 @@ func init() {
 	register("C19",
 		"C19 (taint + dominance on the handlers of cmd/pkappa2 and the watch-directory copy in manager): (a) every value derived from the request (chi.URLParam, URL.Query, FormValue, URL.Path; fsnotify event names for the watcher) that reaches a file-system sink (os.OpenFile/Open/Create/Remove/Rename/ReadFile/WriteFile/Stat, http.ServeFile, pcap.OpenOffline) — directly or through filepath.Join, path.Join, +, fmt.Sprintf, url.PathUnescape — is base-name checked: on every path from each assignment of the request variable to the sink the rejection test `v != filepath.Base(v)` is passed, its rejecting branch cannot reach the sink, and the variable is not re-assigned after the test (numeric conversions and os.FileInfo.Name() sanitise); (b) every os.OpenFile with O_CREATE in those functions has O_EXCL (constant folding), and no os.Create/WriteFile/Rename is used on request-derived names; (c) the capture is queued exactly once and only on success: ImportPcaps is reached only through the success branches of the copy and the close, never twice on a path; the partial file is removed only on paths where this request created it (the removal is dominated by the successful exclusive create and unreachable from its failure branch). Semantics of filepath.Base, chi's routing and the kernel's O_EXCL are trusted.",
 		ruleC19)
+	register("C08",
+		"C08-j = C19-b/C19-c for the watched directory: the copy of an arriving capture into the capture directory is created exclusively (O_CREATE|O_EXCL), queued once after a successful copy, and only a file this event created is removed again. A truncating create lets a second event for the same file (a chmod, a touch) deliver the capture again: FromPcap gives every stream of a re-imported file a new id, and the first records stay visible (seeded C08n).",
+		ruleC19)
 }
 
 var fsSinks = map[string]int{ // full name -> index of the path argument
